@@ -294,6 +294,7 @@ def xnode_value(vf_si, c, o):
 
 P_RACE = {"mode": "race", "a": dict(who="L", mid="m1", secret="right"), "b": dict(who="X", mid="m2", secret="right"), "gate": 0}
 K_RACE = "race-late-attach-unvalidated"
+K_STALE = "singleflight-stale-read-after-update"
 
 
 def race_str(c):
@@ -531,6 +532,24 @@ def run(ctx, only_cases=None):
     houts = run_sharded(binary, h_local, 2) + run_sharded(binary, h_route, 12 if thorough else 6)
     routs = vlib.run_harness(binary, races[:1], timeout=300) + run_sharded(binary, races[1:], 4)
     xouts = run_sharded(binary, [{k: v for k, v in c.items() if k != "shape"} for c in xcases], 8 if thorough else 4)
+    stale_cases = [{"mode": "stale", "change": ch, "secret": sec} for ch in ("revoked", "exp2s", "inactive") for sec in ("none", "right")]
+    souts = run_one(binary, stale_cases, 300) if only_cases is None or any(c.get("mode") == "stale" for c in only_cases) else []
+    stale_defect = any(o.get("class") == "stale-read" for o in souts)
+    transient = []
+
+    def confirmed(case):
+        """a failing case is re-run alone three times when the stale-read defect is present on this tree: a deterministic
+        breakage reproduces; a single manifestation of the (timing dependent) stale read does not"""
+        if not stale_defect:
+            return True
+        try:
+            again = run_one(binary, [{k: v for k, v in case.items() if k != "shape"}] * 3, 300)
+        except vlib.Broken:
+            return True
+        if any(not o["prop_ok"] for o in again):
+            return True
+        transient.append(case)
+        return False
     late_defect = routs[0]["tgt"] == 2          # witness of the interleaving defect: B (mapping 2's target) is target of mapping 1's bridge
 
     def probe(p):
@@ -548,6 +567,8 @@ def run(ctx, only_cases=None):
     reported = set()
     for c, o in zip(cases, outs):
         if o["prop_ok"]:
+            continue
+        if o.get("class", "").endswith(":invalid-mapping") and not confirmed(c):
             continue
         key = classify(c, o, flags)
         if key is not None:
@@ -577,6 +598,8 @@ def run(ctx, only_cases=None):
     for h, o in zip(hists, houts):
         if o["prop_ok"]:
             continue
+        if any(st["op"] == "setm" for st in h["steps"]) and not confirmed(h):
+            continue
         hfail += 1
         nfail += 1
         key = "hist:" + o.get("class", "?").split(":")[0] + ":" + hist_str(h)
@@ -589,6 +612,19 @@ def run(ctx, only_cases=None):
             ctx.violation("hist:" + so.get("class", "?").split(":")[0] + ":" + hist_str(small),
                           "real SessionManager.HandlePacket, history [%s]: %s" % (hist_str(small), so["prop_msg"]),
                           {"case": small, "observed": so})
+    # stale read after a completed update (deterministic witness, gated storage)
+    for c, o in zip(stale_cases, souts):
+        if o["prop_ok"]:
+            continue
+        if o.get("class") == "stale-read":
+            if K_STALE not in reported:
+                reported.add(K_STALE)
+                ctx.violation(K_STALE, "real code, gated storage double: %s" % o["prop_msg"], {"case": c, "observed": o})
+        else:
+            nfail += 1
+            ctx.violation("stale-witness:" + o.get("class", "?"), "stale-read witness: %s" % o["prop_msg"], {"case": c, "observed": o})
+    if transient and K_STALE not in reported:
+        reported.add(K_STALE)
     # two-request interleavings: the predicate after both requests finished
     rfail = rknown = 0
     for c, o in zip(races, routs):
@@ -735,7 +771,10 @@ def run(ctx, only_cases=None):
         o = probe(p)
         samples.append({"cell": p, "reads": describe(p), "observed": {k: o[k] for k in ("ack", "role", "got_bytes", "marker_at", "entitled", "prop_ok")}})
     ctx.coverage.update({
-        "evaluations": len(cases) + len(hists) + len(races) + len(xcases), "distinct_nontrivial": len(nontrivial) + len(h_nontrivial), "exhaustive": only_cases is None,
+        "evaluations": len(cases) + len(hists) + len(races) + len(xcases) + len(souts), "distinct_nontrivial": len(nontrivial) + len(h_nontrivial), "exhaustive": only_cases is None,
+        "stale_read_witness": {"driven": len(souts), "update_completed_then_open_accepted": sum(1 for o in souts if o.get("class") == "stale-read"),
+                               "defect_present": stale_defect, "transient_failures_not_reproduced_in_3_reruns": len(transient),
+                               "transient_cases": [hist_str(t) if t.get("mode") == "hist" else cell_key(t) for t in transient[:5]]},
         "two_node": {"driven": len(xcases), "forwarded_across_nodes": sum(1 for o in xouts for r in o["opens"] if r[1] == 4),
                      "cross_node_readers": sum(len(o["readers"] or []) for o in xouts), "gated_requests": sum(1 for c in xcases for st in c["steps"] if st.get("gate")),
                      "model_vs_impl": len(xterms), "model_vs_impl_mismatches": len(xmism), "predicate_failures": xfail,
